@@ -3,9 +3,16 @@
    Layers: F = documented format (Format.v), S = abstract spec (Spec/SpecStep), I = model of the Rust (World.step'). *)
 From Coq Require Import List NArith Bool Arith Sorted.
 From Coq Require Import Strings.Byte.
-Require Import BS.Bytes BS.Common BS.Api BS.Layout BS.Format BS.FormatFacts BS.Spec BS.SpecStep.
-Require Import BS.FS BS.FSFacts BS.Meta BS.MetaFacts BS.Header BS.Reader BS.ReaderFacts BS.Index BS.Data BS.DataFacts BS.Seek BS.Series BS.SeriesFacts.
+Require Import BS.Bytes BS.Common BS.Api BS.Layout BS.Format BS.FormatFacts BS.Spec BS.SpecStep BS.Sections.
+Require Import BS.FS BS.FSFacts BS.Meta BS.MetaFacts BS.Header BS.Reader BS.ReaderFacts BS.Index BS.Data BS.DataFacts BS.Seek BS.SeekFacts BS.Series BS.SeriesFacts BS.ReadAllFacts.
 Import ListNotations.
 
-(* theorems for this property are added as the development grows; until then the property is
-   decided by the judge (Layer S/F, extracted) on the implementation and by the correspondence check *)
+(* (I refines S) the first n >= 1 lines of a range are exactly the first min(n, k) of the k lines a full read
+   of that range returns, for every pair of bounds *)
+Theorem C13_first_n_is_prefix : forall fs sr p hdr ihdr l, RepH fs sr p hdr ihdr l -> forall n lo hi, (1 <= n)%N ->
+  read_first_n sr n lo hi fs = (fs, Ok (firstn (N.to_nat (N.min n (len (select lo hi l)))) (select lo hi l)))
+  \/ (select lo hi l = [] /\ read_first_n sr n lo hi fs = (fs, Err ERange)).
+Proof. exact read_first_n_ok. Qed.
+Print Assumptions C13_first_n_is_prefix.
+(* partial: the paging corollary (concatenation of the pages = l) is a consequence of this theorem and of
+   select (Incl (last+1)) / (Excl last) being the suffix after `last`; the list-level lemma is not written yet. *)
